@@ -123,9 +123,12 @@ func (w *rWorld) logf(f string, a ...any) {
 
 var c07Authors = []string{vk.FakePub(700), vk.FakePub(701), vk.FakePub(702)}
 
+// kinds of every class and size: below and at 64, four and five digits, the largest one
+var c07Kinds = []int64{1, 7, 1, 7, 1, 7, 0, 63, 64, 1000, 10002, 20001, 30023, 65535}
+
 func c07Event(r *rand.Rand, n *int) *mocrelay.Event {
 	*n++
-	e := &mocrelay.Event{Kind: vk.Pick(r, []int64{1, 7}), Pubkey: vk.Pick(r, c07Authors), CreatedAt: int64(1000 + r.IntN(100)),
+	e := &mocrelay.Event{Kind: vk.Pick(r, c07Kinds), Pubkey: vk.Pick(r, c07Authors), CreatedAt: int64(1000 + r.IntN(100)),
 		Content: fmt.Sprintf("c07-%d-%d", *n, r.Uint32()), Tags: []mocrelay.Tag{{"t", vk.Pick(r, []string{"v1", "v2", "v1", "v2", "v1,v2", ""})}}}
 	return vk.Seal(e)
 }
@@ -151,6 +154,9 @@ func c07Filters(r *rand.Rand) []*mocrelay.ReqFilter {
 			f.Authors = []string{}
 		case 1:
 			f.Kinds = []int64{vk.Pick(r, []int64{1, 7})}
+			if r.IntN(3) == 0 {
+				f.Kinds = []int64{vk.Pick(r, c07Kinds), vk.Pick(r, c07Kinds)}
+			}
 		case 2:
 			f.Authors = []string{vk.Pick(r, c07Authors)}
 		case 3:
@@ -569,7 +575,7 @@ func TestVerif_C07(t *testing.T) {
 			}
 		}()
 		for _, c := range append(append([]*rConn{}, stalled...), drain...) {
-			fs := []*mocrelay.ReqFilter{{Kinds: []int64{1, 7}}}
+			fs := []*mocrelay.ReqFilter{{Kinds: c07Kinds}}
 			s := &rSub{conn: c.idx, sub: "s", filters: fs, reqCall: vk.Tick()}
 			w.subs = append(w.subs, s)
 			c.s.Put(&mocrelay.ClientReqMsg{SubscriptionID: "s", ReqFilters: fs})
@@ -763,6 +769,77 @@ func TestVerif_C07(t *testing.T) {
 		rep.Count("backpressure_runs", 1)
 		rep.Nontrivial(fmt.Sprintf("bp/%d/%d/%d/%d/%d", buf, nStalled, nDrain, nPub, m))
 	})
+	// a subscriber whose buffer overflowed reads again, slowly: from then on there is room in
+	// its buffer for what is published, so none of that may be dropped ("only its own
+	// deliveries beyond the configured buffer are dropped")
+	nResume := vk.N(150, 2000)
+	vk.ParallelW(8, nResume, func(i int) {
+		if rep.Violations() >= 3 {
+			return
+		}
+		r := vk.RNG("C07/resume", i)
+		buf := 8 + r.IntN(40)
+		router := mocrelay.NewRouterHandler(buf)
+		sub, pub := vk.StartSession(ctx, router, 0), vk.StartSession(ctx, router, 4)
+		defer sub.Stop()
+		defer pub.Stop()
+		sub.Put(&mocrelay.ClientReqMsg{SubscriptionID: "s", ReqFilters: []*mocrelay.ReqFilter{{}}})
+		if m, ok := sub.Get(); !ok || vk.DescribeServerMsg(m) != "EOSE s" {
+			rep.Inconclusive("C07: resume scenario could not be set up")
+			return
+		}
+		evn := 0
+		publish := func() *mocrelay.Event {
+			e := c07Event(r, &evn)
+			if !pub.Put(&mocrelay.ClientEventMsg{Event: e}) {
+				return nil
+			}
+			if m, ok := pub.Get(); !ok {
+				return nil
+			} else if o, is := m.(*mocrelay.ServerOKMsg); !is || !o.Accepted {
+				return nil
+			}
+			return e
+		}
+		for k := buf + 3 + r.IntN(buf); k > 0; k-- {
+			if publish() == nil {
+				rep.Inconclusive("C07: resume scenario: a publication was not acknowledged")
+				return
+			}
+		}
+		// the subscriber takes a few deliveries (fewer than half a buffer) and pauses again
+		took := 2 + r.IntN(max(1, buf/2-3))
+		for k := 0; k < took; k++ {
+			if _, ok := sub.Get(); !ok {
+				rep.Inconclusive("C07: resume scenario: the backlog was not delivered")
+				return
+			}
+		}
+		marker := publish()
+		if marker == nil {
+			rep.Inconclusive("C07: resume scenario: the marker publication was not acknowledged")
+			return
+		}
+		rep.Eval(1)
+		got, n := false, 0
+		for {
+			m, ok := sub.GetWithin(time.Second)
+			if !ok {
+				break
+			}
+			n++
+			if em, is := m.(*mocrelay.ServerEventMsg); is && em.Event.ID == marker.ID {
+				got = true
+				break
+			}
+		}
+		if !got {
+			rep.Violation("backpressure/dropped-although-the-buffer-had-room", fmt.Sprintf("a subscriber (buffer %d) overflowed, then took %d deliveries; an event published after that - acknowledged with OK - never arrived although %d more deliveries did", buf, took, n), map[string]any{"buffer": buf, "taken_before_the_publication": took})
+			return
+		}
+		rep.Count("publications_after_a_partial_drain_delivered", 1)
+	})
+	rep.Require(rep.Violations() > 0 || rep.Counter("publications_after_a_partial_drain_delivered") >= int64(nResume*9/10), "resume-after-overflow scenario")
 	// a publisher that goes away while its own EVENT is being fanned out: when it still got its
 	// accepting OK, the event was published, and every subscription that was open (EOSE read
 	// long before) must get it - whether the publisher is still there does not matter to them
